@@ -309,6 +309,10 @@ func (fc *FnCtx) fieldOf(st *State, base Val, idx int, pos token.Pos) Val {
 			// a stored machine integer is within the range of its type
 			fc.assume(st, fc.rangeFact(t, f.Type()))
 		}
+		if _, isSlice := f.Type().Underlying().(*types.Slice); isSlice && fc.inSpec == 0 {
+			// a stored slice header is well formed (0 <= len <= cap, ...)
+			fc.assume(st, fc.wellFormed(t, f.Type()))
+		}
 		return Val{T: t, Ty: f.Type()}
 	}
 	ss := fc.sortOf(owner)
